@@ -116,7 +116,7 @@ def group(items, depth):
             i += w
         else:
             c, a = items[i]
-            if rng.random() < 0.12:      # the same atom written twice in a row
+            if rng.random() < (0.6 if len(items) == 1 else 0.12):      # the same atom written twice in a row
                 out.append((c / 2, a)); out.append((c / 2, a))
             else:
                 out.append((c, a))
@@ -166,7 +166,9 @@ stats = dict(sets=0, formulas=0, pairs=0, ordered=0, charge_tie_sets=0, with_CH=
 
 for si in range(nsets):
     n = 2 + (si % 7) if si < 14 else rng.randint(2, 8)
-    atoms = pick_atoms(n)
+    if si % 9 == 8:
+        n = 1      # a single species written as several terms / groups (O2O vs O3)
+    atoms = pick_atoms(n) if n > 1 else [pool.atom()]
     n = len(atoms)
     counts = [float(pool.count(True)) if rng.random() < 0.7 else pool.count(True) for _ in atoms]
     items = list(zip(counts, atoms))
@@ -178,7 +180,9 @@ for si in range(nsets):
     stats["with_CH"] += any(a.symbol in ("C", "H") for a in atoms)
     stats["with_DT"] += any(a.symbol in ("D", "T") for a in atoms)
     stats["isoion_sets"] += any(k[1] and k[2] for k in keys)
-    if n <= 5:
+    if n == 1:
+        orders = [(0,)] * 6
+    elif n <= 5:
         orders = list(itertools.permutations(range(n)))
     else:
         orders = [tuple(rng.sample(range(n), n)) for _ in range(30)]
